@@ -63,3 +63,21 @@ Theorem cancel_token_guard_tie : forall was_cancelled has_result : bool,
   Frag.cancel_token_skips was_cancelled has_result = (was_cancelled || has_result)%bool
   /\ (Frag.cancel_token_skips was_cancelled has_result = false <-> was_cancelled = false /\ has_result = false).
 Proof. intros [] []; cbn; repeat split; try discriminate; intros [? ?]; discriminate. Qed.
+
+(* ---- Runtime::block_on_at (compio-runtime/src/lib.rs): when the loop blocks in the driver ------ *)
+(* in block_on mode (no external loop), at the point where the driver is entered with a wait
+   requested: the runtime thread goes to its blocking wait exactly when the source's decision
+   (`if remaining_tasks { poll_with(Some(ZERO)) } else { poll() }`) says "block" for the model's
+   remaining_tasks flag *)
+Theorem block_on_wait_tie : forall v s,
+  pc (r s) = REnter -> ext (c s) = false -> nw (r s) = true ->
+  exists s', rt_step v s = Some s' /\
+    (pc (r s') = RWait <-> Frag.block_on_blocks (rem (r s)) = true).
+Proof.
+  intros v s Hp He Hn. unfold rt_step. rewrite Hp. cbv zeta. rewrite He, Hn.
+  unfold Frag.block_on_blocks. cbv zeta.
+  destruct (rem (r s)) eqn:Hr; cbn [negb andb].
+  - destruct (uring (c s) && true && isnil (cq (d (s_d (submit (d s)) s))))%bool;
+      eexists; (split; [reflexivity|]); cbn; split; intro H; discriminate.
+  - eexists. split; [reflexivity|]. cbn. split; reflexivity.
+Qed.
